@@ -49,6 +49,8 @@ type Cfg struct {
 	// ImposeHb: the application's logon callback overwrites the heartbeat interval of the settings it is handed (0: it does not)
 	ImposeHb int `json:"imposeHb"`
 	LaxStore  bool `json:"laxStore"`
+	// ResetFlag: an initiating application sets LogonSettings.ResetSeqNumFlag
+	ResetFlag bool `json:"resetFlag"`
 	// Stamp: the application registers an outgoing handler that amends every message (sets SenderSubID), the documented purpose
 	// of HandleOutgoing: what is transmitted, stored and later retransmitted is the amended message
 	Stamp bool `json:"stamp"`
@@ -344,7 +346,7 @@ func NewRig(cfg Cfg) (*Rig, error) {
 		}
 		r.S, err = session.NewInitiatorSession(r.H, opts, &session.LogonSettings{
 			TargetCompID: peerID, SenderCompID: ourID,
-			HeartBtInt: cfg.HbCfg, EncryptMethod: cfg.EncCfg,
+			HeartBtInt: cfg.HbCfg, EncryptMethod: cfg.EncCfg, ResetSeqNumFlag: cfg.ResetFlag,
 			Username: map[string]string{"": "user", "useronly": "user"}[cfg.Creds], Password: map[string]string{"": "good", "passonly": "good"}[cfg.Creds],
 			CloseTimeout: time.Duration(cfg.CloseMs) * time.Millisecond,
 		}, cs, ms)
